@@ -121,6 +121,25 @@ def iterator(ctx, rule):
         return
     ctx.check("Iterator::by_ref(arg1.range)" in calls and "RamBundle::get_module(arg1.ram_bundle,try(Iterator::next(var:&mut Range<usize>)))" in calls, rule, ITER, "ids-in-order", "ids are visited in increasing order through the stored range", detail=str(calls))
     GM = "RamBundle::get_module(arg1.ram_bundle,try(Iterator::next(var:&mut Range<usize>)))"
+    # the loop with the three cases folded by transpose: `if let Some(r) = get_module(id).transpose() { return Some(r) }`
+    TR = "Result::transpose(%s)" % GM
+    if sorted(sh for sh, _, _ in q.def_shapes(b, 0, {})) == ["Option::None{}", "Option::Some{0:try(%s)}" % TR]:
+        head = [bi for bi, t in q.calls_to(b, "Iterator::next")]
+        some_sites = [site[0] for sh, site, _ in q.def_shapes(b, 0, {}) if sh.startswith("Option::Some{")]
+        none_sites = [site[0] for sh, site, _ in q.def_shapes(b, 0, {}) if sh == "Option::None{}"]
+        ok = bool(head) and all(has_fact(b, x, {}, *__import__("rules.common", fromlist=["x"]).opt_fact("some", TR)) for x in some_sites) \
+            and all(has_fact(b, x, {}, *__import__("rules.common", fromlist=["x"]).opt_fact("none", "Iterator::next(var:&mut Range<usize>)")) for x in none_sites)
+        ctx.check(ok, rule, ITER, "yields", "present modules and errors are yielded, the end of the range ends the iteration (loop + transpose)")
+        # an empty slot (transpose gives None) goes on to the next id
+        skip = False
+        for d in range(len(b.blocks)):
+            t = b.blocks[d]["term"]
+            if t["k"] == "switch" and q.shape(b.expr_of_operand(t["discr"])) == "discr(%s)" % TR:
+                none_t = [tb for v, tb in t["arms"] if v == 0] or ([t["otherwise"]] if [v for v, _ in t["arms"]] == [1] else [])
+                skip = bool(none_t) and bool(head) and (none_t[0] == head[0] or b.reaches(none_t[0], head[0])) and not any(x in b.reachable_blocks(none_t[0], avoid=head) for x in some_sites)
+        ctx.check(skip, rule, ITER, "skip-empty", "empty slots (Ok(None)) are skipped")
+        _iter_range(ctx, rule)
+        return
     rets = [(bi, q.shape(b.expr_of_rvalue(s["rv"]))) for bi, si, s, it in b.locations() if not it and s["k"] == "assign" and s["place"]["l"] == 0 and not s["place"]["p"]]
     shapes = sorted(sh for _, sh in rets)
     ctx.check(shapes == ["Option::None{}", "Option::Some{0:Result::Err{0:err(%s)}}" % GM, "Option::Some{0:Result::Ok{0:try(try(%s))}}" % GM], rule, ITER, "yields", "present modules and errors are yielded, the end of the range ends the iteration", detail=str(shapes))
